@@ -1,7 +1,29 @@
-(* C10 — lemmas and theorems about the document algebra of Model/Doc.v. *)
+(* C10 — lemmas and theorems about the document algebra of Model/Doc.v.
+   Everything in Section Generic holds for every statement semantics [exec], every comment effect [cmt]
+   and every initial store [init]. *)
 From Coq Require Import List ZArith Ascii String Bool Arith Lia.
 From MechV Require Import Base.Sexp Base.Obs Model.Doc Proofs.SexpP.
 Import ListNotations.
+
+(* ---------- tables ---------- *)
+Section TablesP.
+  Context {S : Type}.
+  Lemma lookup_upsert_same (n : string) (v : S) t : lookup n (upsert n v t) = Some v.
+  Proof.
+    induction t as [|[m w] t IH]; cbn.
+    - rewrite String.eqb_refl. reflexivity.
+    - destruct (String.eqb n m) eqn:E; cbn; rewrite ?String.eqb_refl, ?E; auto.
+  Qed.
+  Lemma lookup_upsert_other (n m : string) (v : S) t : n <> m -> lookup m (upsert n v t) = lookup m t.
+  Proof.
+    intros Hn. induction t as [|[k w] t IH]; cbn.
+    - destruct (String.eqb m n) eqn:E; [apply String.eqb_eq in E; congruence|reflexivity].
+    - destruct (String.eqb n k) eqn:E; cbn.
+      + apply String.eqb_eq in E. subst k.
+        destruct (String.eqb m n) eqn:E2; [apply String.eqb_eq in E2; congruence|reflexivity].
+      + destruct (String.eqb m k); [reflexivity|exact IH].
+  Qed.
+End TablesP.
 
 Section Generic.
   Context {S stmt prose : Type}.
@@ -9,27 +31,509 @@ Section Generic.
   Variable cmt : S -> S.
   Variable init : S.
 
+  Notation step := (@step S stmt exec cmt).
+  Notation run_items := (@run_items S stmt exec cmt).
   Notation run_elem := (@run_elem S stmt prose exec cmt init).
   Notation run_from := (@run_from S stmt prose exec cmt init).
   Notation run_doc := (@run_doc S stmt prose exec cmt init).
+  Notation live := (@live S stmt prose exec cmt).
+  Notation ns_store := (@ns_store S stmt exec cmt init).
+  Notation ns_result := (@ns_result S stmt prose exec cmt init).
+  Notation sub_or_init := (@sub_or_init S init).
+  Notation elemT := (elem stmt prose).
 
-  Lemma run_from_app ds d1 d2 : run_from ds (d1 ++ d2) = run_from (run_from ds d1) d2.
+  (* ---------- basic facts ---------- *)
+  Lemma run_from_app ds (d1 d2 : list elemT) : run_from ds (d1 ++ d2) = run_from (run_from ds d1) d2.
   Proof. unfold Doc.run_from. apply fold_left_app. Qed.
 
-  Lemma run_elem_inert ds e : is_inert e = true -> run_elem ds e = ds.
+  Lemma run_from_cons ds (e : elemT) d : run_from ds (e :: d) = run_from (run_elem ds e) d.
+  Proof. reflexivity. Qed.
+
+  Lemma run_elem_halted ds (e : elemT) : d_halted ds = true -> run_elem ds e = ds.
+  Proof. intros H. unfold Doc.run_elem. rewrite H. reflexivity. Qed.
+
+  Lemma run_from_halted ds (d : list elemT) : d_halted ds = true -> run_from ds d = ds.
+  Proof.
+    intros H. induction d as [|e d IH]; [reflexivity|].
+    rewrite run_from_cons, run_elem_halted by exact H. exact IH.
+  Qed.
+
+  Lemma run_items_app s l1 l2 :
+    run_items s (l1 ++ l2) =
+    (let '(s1, ok) := run_items s l1 in if ok then run_items s1 l2 else (s1, false)).
+  Proof.
+    revert s. induction l1 as [|it l1 IH]; intros s; [reflexivity|].
+    cbn [app Doc.run_items]. destruct (step s it) as [s'|s']; [apply IH|reflexivity].
+  Qed.
+
+  (* ---------- 1. prose is inert ---------- *)
+  Lemma run_elem_inert ds (e : elemT) : is_inert e = true -> run_elem ds e = ds.
   Proof.
     intros H. unfold Doc.run_elem. destruct (d_halted ds); [reflexivity|].
     destruct e as [p|p|l|[|n|] l]; cbn in H; try discriminate; reflexivity.
   Qed.
 
-  Theorem prose_inert_from ds d : run_from ds (strip_prose d) = run_from ds d.
+  Theorem prose_inert_from ds (d : list elemT) : run_from ds (strip_prose d) = run_from ds d.
   Proof.
     revert ds. induction d as [|e d IH]; intros ds; [reflexivity|].
     cbn [strip_prose filter]. destruct (is_inert e) eqn:E; cbn [negb].
-    - cbn [Doc.run_from fold_left]. rewrite (run_elem_inert ds e E). apply IH.
-    - cbn [Doc.run_from fold_left]. apply IH.
+    - rewrite run_from_cons, (run_elem_inert ds e E). apply IH.
+    - rewrite !run_from_cons. apply IH.
   Qed.
 
-  Theorem prose_inert d : run_doc (strip_prose d) = run_doc d.
+  Theorem prose_inert (d : list elemT) : run_doc (strip_prose d) = run_doc d.
   Proof. apply prose_inert_from. Qed.
+
+  (* inserting an inert element anywhere changes nothing *)
+  Theorem inert_insert (d1 d2 : list elemT) e :
+    is_inert e = true -> run_doc (d1 ++ e :: d2) = run_doc (d1 ++ d2).
+  Proof.
+    intros H. unfold Doc.run_doc. rewrite !run_from_app, run_from_cons, run_elem_inert by exact H. reflexivity.
+  Qed.
+
+  (* ---------- 2. the main store is the fold of exec over the main code, in document order ---------- *)
+  Lemma main_from ds (d : list elemT) :
+    d_halted ds = false ->
+    d_main (run_from ds d) = fst (run_items (d_main ds) (main_items d)) /\
+    d_halted (run_from ds d) = negb (snd (run_items (d_main ds) (main_items d))).
+  Proof.
+    revert ds. induction d as [|e d IH]; intros ds Hh.
+    - cbn. rewrite Hh. auto.
+    - rewrite run_from_cons. cbn [main_items flat_map]. fold (main_items d).
+      rewrite run_items_app.
+      assert (Hmain : forall l, main_items_of e = l ->
+                (e = Code l \/ e = Fence FUnnamed l) ->
+                d_main (run_from (run_elem ds e) d) =
+                  fst (let '(s1, ok) := run_items (d_main ds) l in
+                       if ok then run_items s1 (main_items d) else (s1, false)) /\
+                d_halted (run_from (run_elem ds e) d) =
+                  negb (snd (let '(s1, ok) := run_items (d_main ds) l in
+                             if ok then run_items s1 (main_items d) else (s1, false)))).
+      { intros l _ He.
+        assert (Hr : run_elem ds e =
+                     (let '(s', ok) := run_items (d_main ds) l in DS s' (d_subs ds) (negb ok))).
+        { unfold Doc.run_elem. rewrite Hh. destruct He as [-> | ->]; reflexivity. }
+        rewrite Hr. destruct (run_items (d_main ds) l) as [s1 ok]. destruct ok; cbn [negb].
+        - apply IH. reflexivity.
+        - rewrite run_from_halted by reflexivity. cbn. auto. }
+      destruct e as [p|p|l|[|n|] l]; cbn [main_items_of].
+      + cbn [Doc.run_items]. rewrite run_elem_inert by reflexivity. apply IH, Hh.
+      + cbn [Doc.run_items]. rewrite run_elem_inert by reflexivity. apply IH, Hh.
+      + apply Hmain; auto.
+      + apply Hmain; auto.
+      + cbn [Doc.run_items].
+        assert (Hm : d_main (run_elem ds (Fence (FNamed n) l)) = d_main ds /\
+                     d_halted (run_elem ds (Fence (FNamed n) l)) = false).
+        { unfold Doc.run_elem. rewrite Hh.
+          destruct (run_items (sub_or_init n (d_subs ds)) l) as [s' ok]. cbn. auto. }
+        destruct Hm as [Hm1 Hm2]. rewrite <- Hm1. apply IH, Hm2.
+      + cbn [Doc.run_items]. rewrite run_elem_inert by reflexivity. apply IH, Hh.
+  Qed.
+
+  Theorem main_is_code_in_order (d : list elemT) :
+    d_main (run_doc d) = fst (run_items init (main_items d)) /\
+    d_halted (run_doc d) = negb (snd (run_items init (main_items d))).
+  Proof. apply (main_from (start init) d). reflexivity. Qed.
+
+  Corollary main_depends_only_on_main_code (d1 d2 : list elemT) :
+    main_items d1 = main_items d2 ->
+    d_main (run_doc d1) = d_main (run_doc d2) /\ d_halted (run_doc d1) = d_halted (run_doc d2).
+  Proof.
+    intros H. destruct (main_is_code_in_order d1) as [A1 B1], (main_is_code_in_order d2) as [A2 B2].
+    rewrite A1, A2, B1, B2, H. auto.
+  Qed.
+
+  (* ---------- 3. namespaces ---------- *)
+  (* only the evaluated part of a document matters *)
+  Lemma run_from_live ds (d : list elemT) :
+    d_halted ds = false -> run_from ds (live (d_main ds) d) = run_from ds d.
+  Proof.
+    revert ds. induction d as [|e d IH]; intros ds Hh; [reflexivity|].
+    assert (Hmain : forall l, (e = Code l \/ e = Fence FUnnamed l) ->
+              run_from ds (let '(s', ok) := run_items (d_main ds) l in
+                           if ok then e :: live s' d else [e]) = run_from ds (e :: d)).
+    { intros l He.
+      assert (Hr : run_elem ds e =
+                   (let '(s', ok) := run_items (d_main ds) l in DS s' (d_subs ds) (negb ok))).
+      { unfold Doc.run_elem. rewrite Hh. destruct He as [-> | ->]; reflexivity. }
+      destruct (run_items (d_main ds) l) as [s1 ok] eqn:E. destruct ok.
+      - rewrite !run_from_cons, Hr. cbn [negb]. apply (IH (DS s1 (d_subs ds) false)). reflexivity.
+      - rewrite !run_from_cons, Hr. cbn [negb Doc.run_from fold_left].
+        symmetry. apply run_from_halted. reflexivity. }
+    assert (Hother : d_main (run_elem ds e) = d_main ds -> d_halted (run_elem ds e) = false ->
+              run_from ds (e :: live (d_main ds) d) = run_from ds (e :: d)).
+    { intros H1 H2. rewrite !run_from_cons, <- H1. apply IH, H2. }
+    destruct e as [p|p|l|[|n|] l]; cbn [Doc.live].
+    - apply Hother; rewrite run_elem_inert by reflexivity; auto.
+    - apply Hother; rewrite run_elem_inert by reflexivity; auto.
+    - apply (Hmain l). auto.
+    - apply (Hmain l). auto.
+    - apply Hother; unfold Doc.run_elem; rewrite Hh;
+        destruct (run_items (sub_or_init n (d_subs ds)) l); reflexivity.
+    - apply Hother; rewrite run_elem_inert by reflexivity; auto.
+  Qed.
+
+  Theorem run_doc_live (d : list elemT) : run_doc (live init d) = run_doc d.
+  Proof. apply (run_from_live (start init)). reflexivity. Qed.
+
+  (* folding the fences of one namespace, starting from what the table holds for it *)
+  Definition ns_fold (o : option S) (fs : list (list (item stmt))) : option S :=
+    fold_left (fun o l => Some (fst (run_items (match o with Some s => s | None => init end) l))) fs o.
+
+  Lemma ns_fold_some s fs :
+    ns_fold (Some s) fs = Some (fold_left (fun s l => fst (run_items s l)) fs s).
+  Proof. revert s. induction fs as [|l fs IH]; intros s; [reflexivity|]. cbn. apply IH. Qed.
+
+  Lemma ns_result_fold n (d : list elemT) : ns_result n d = ns_fold None (ns_fences n d).
+  Proof.
+    unfold Doc.ns_result, Doc.ns_store. destruct (ns_fences n d) as [|l fs]; [reflexivity|].
+    change (ns_fold None (l :: fs)) with (ns_fold (Some (fst (run_items init l))) fs).
+    rewrite ns_fold_some. reflexivity.
+  Qed.
+
+  (* on a document in which main code never fails before the last element ("live" documents),
+     the table entry of n is the fold over the fences named n *)
+  Lemma ns_from n ds (d : list elemT) :
+    d_halted ds = false ->
+    lookup n (d_subs (run_from ds d)) = ns_fold (lookup n (d_subs ds)) (ns_fences n (live (d_main ds) d)).
+  Proof.
+    revert ds. induction d as [|e d IH]; intros ds Hh; [reflexivity|].
+    rewrite run_from_cons.
+    assert (Hmain : forall l, (e = Code l \/ e = Fence FUnnamed l) ->
+              lookup n (d_subs (run_from (run_elem ds e) d)) =
+              ns_fold (lookup n (d_subs ds))
+                (ns_fences n (let '(s', ok) := run_items (d_main ds) l in
+                              if ok then e :: live s' d else [e]))).
+    { intros l He.
+      assert (Hr : run_elem ds e =
+                   (let '(s', ok) := run_items (d_main ds) l in DS s' (d_subs ds) (negb ok))).
+      { unfold Doc.run_elem. rewrite Hh. destruct He as [-> | ->]; reflexivity. }
+      assert (Hn : ns_items_of n e = None) by (destruct He as [-> | ->]; reflexivity).
+      rewrite Hr. destruct (run_items (d_main ds) l) as [s1 ok]. destruct ok; cbn [negb].
+      - cbn [ns_fences]. rewrite Hn. apply (IH (DS s1 (d_subs ds) false)). reflexivity.
+      - rewrite run_from_halted by reflexivity. cbn [ns_fences]. rewrite Hn. reflexivity. }
+    assert (Hinert : is_inert e = true -> ns_items_of n e = None ->
+              lookup n (d_subs (run_from (run_elem ds e) d)) =
+              ns_fold (lookup n (d_subs ds)) (ns_fences n (e :: live (d_main ds) d))).
+    { intros Hi Hn. rewrite run_elem_inert by exact Hi. cbn [ns_fences]. rewrite Hn. apply IH, Hh. }
+    destruct e as [p|p|l|[|m|] l]; cbn [Doc.live].
+    - apply Hinert; reflexivity.
+    - apply Hinert; reflexivity.
+    - apply (Hmain l). auto.
+    - apply (Hmain l). auto.
+    - assert (Hr : run_elem ds (Fence (FNamed m) l) =
+                   DS (d_main ds) (upsert m (fst (run_items (sub_or_init m (d_subs ds)) l)) (d_subs ds)) false).
+      { unfold Doc.run_elem. rewrite Hh. destruct (run_items (sub_or_init m (d_subs ds)) l); reflexivity. }
+      rewrite Hr, IH by reflexivity. cbn [d_main d_subs ns_fences ns_items_of].
+      destruct (String.eqb n m) eqn:E.
+      + apply String.eqb_eq in E. subst m. rewrite lookup_upsert_same.
+        cbn [ns_fold fold_left]. unfold Doc.sub_or_init. reflexivity.
+      + rewrite lookup_upsert_other; [reflexivity|].
+        intros ->. rewrite String.eqb_refl in E. discriminate.
+    - apply Hinert; reflexivity.
+  Qed.
+
+  (* the store of namespace n is determined by the fences named n that are reached, and by nothing else *)
+  Theorem namespace_is_its_fences n (d : list elemT) :
+    lookup n (d_subs (run_doc d)) = ns_result n (live init d).
+  Proof. rewrite ns_result_fold. apply (ns_from n (start init) d). reflexivity. Qed.
+
+  Corollary namespaces_disjoint n (d1 d2 : list elemT) :
+    ns_fences n (live init d1) = ns_fences n (live init d2) ->
+    lookup n (d_subs (run_doc d1)) = lookup n (d_subs (run_doc d2)).
+  Proof. intros H. rewrite !namespace_is_its_fences. unfold Doc.ns_result. rewrite H. reflexivity. Qed.
+
+  (* fences of another name (and everything that is not a fence named m) are invisible to m;
+     main code is invisible too as long as it does not fail *)
+  Lemma ns_fences_live_skip m s (d1 d2 : list elemT) e :
+    main_items_of e = [] -> ns_items_of m e = None ->
+    ns_fences m (live s (d1 ++ e :: d2)) = ns_fences m (live s (d1 ++ d2)).
+  Proof.
+    intros Hm Hn. revert s. induction d1 as [|x d1 IH]; intros s.
+    - cbn [app]. destruct e as [p|p|l|[|k|] l]; cbn in Hm; cbn [Doc.live ns_fences]; rewrite ?Hn; try reflexivity.
+      + subst l. cbn. reflexivity.
+      + subst l. cbn. reflexivity.
+    - cbn [app]. destruct x as [p|p|l|[|k|] l]; cbn [Doc.live].
+      + cbn [ns_fences ns_items_of]. apply IH.
+      + cbn [ns_fences ns_items_of]. apply IH.
+      + destruct (run_items s l) as [s1 ok]. destruct ok; [|reflexivity].
+        cbn [ns_fences ns_items_of]. apply IH.
+      + destruct (run_items s l) as [s1 ok]. destruct ok; [|reflexivity].
+        cbn [ns_fences ns_items_of]. apply IH.
+      + cbn [ns_fences]. destruct (ns_items_of m (Fence (FNamed k) l)); rewrite IH; reflexivity.
+      + cbn [ns_fences ns_items_of]. apply IH.
+  Qed.
+
+  Lemma main_items_skip (d1 d2 : list elemT) e :
+    main_items_of e = [] -> main_items (d1 ++ e :: d2) = main_items (d1 ++ d2).
+  Proof.
+    intros H. unfold main_items. rewrite !flat_map_app. cbn [flat_map]. rewrite H. reflexivity.
+  Qed.
+
+  (* ---------- 4. a named fence — whatever happens inside it, errors included — is invisible to the
+     main program and to every other name, and the rest of the document is evaluated as without it ---------- *)
+  Theorem named_fence_invisible (d1 d2 : list elemT) n l :
+    let A := run_doc (d1 ++ Fence (FNamed n) l :: d2) in
+    let B := run_doc (d1 ++ d2) in
+    d_main A = d_main B /\ d_halted A = d_halted B /\
+    forall m, m <> n -> lookup m (d_subs A) = lookup m (d_subs B).
+  Proof.
+    cbv zeta.
+    destruct (main_depends_only_on_main_code (d1 ++ Fence (FNamed n) l :: d2) (d1 ++ d2)) as [A B].
+    { apply main_items_skip. reflexivity. }
+    split; [exact A|]. split; [exact B|].
+    intros m Hm. apply namespaces_disjoint. apply ns_fences_live_skip; [reflexivity|].
+    cbn. destruct (String.eqb m n) eqn:E; [apply String.eqb_eq in E; congruence|reflexivity].
+  Qed.
+
+  (* an error inside a named fence ends that fence only: the lines after the failing one are never executed,
+     and (previous theorem) nothing outside the namespace can tell *)
+  Theorem named_error_cuts_suffix (d1 d2 : list elemT) n l1 a l2 s1 s2 :
+    run_items (sub_or_init n (d_subs (run_doc d1))) l1 = (s1, true) ->
+    step s1 a = Err s2 ->
+    run_doc (d1 ++ Fence (FNamed n) (l1 ++ a :: l2) :: d2) = run_doc (d1 ++ Fence (FNamed n) (l1 ++ [a]) :: d2) /\
+    (d_halted (run_doc d1) = false ->
+       lookup n (d_subs (run_doc (d1 ++ [Fence (FNamed n) (l1 ++ a :: l2)]))) = Some s2 /\
+       d_halted (run_doc (d1 ++ [Fence (FNamed n) (l1 ++ a :: l2)])) = false).
+  Proof.
+    intros H1 H2.
+    assert (Hcut : forall l, run_items (sub_or_init n (d_subs (run_doc d1))) (l1 ++ a :: l) = (s2, false)).
+    { intros l. rewrite run_items_app, H1. cbn [Doc.run_items]. rewrite H2. reflexivity. }
+    split.
+    - unfold Doc.run_doc. rewrite !run_from_app, !run_from_cons. f_equal.
+      unfold Doc.run_elem. fold (run_doc d1). destruct (d_halted (run_doc d1)); [reflexivity|].
+      rewrite (Hcut l2), (Hcut []). reflexivity.
+    - intros Hh. unfold Doc.run_doc. rewrite run_from_app. fold (run_doc d1).
+      cbn [Doc.run_from fold_left]. unfold Doc.run_elem. rewrite Hh, (Hcut l2). cbn [d_subs d_halted].
+      split; [apply lookup_upsert_same|reflexivity].
+  Qed.
+
+  (* an error in main code ends the document *)
+  Theorem main_error_stops_document (d1 d2 : list elemT) :
+    d_halted (run_doc d1) = true -> run_doc (d1 ++ d2) = run_doc d1.
+  Proof. intros H. unfold Doc.run_doc. rewrite run_from_app. apply run_from_halted, H. Qed.
+
+  (* ---------- 5. comments ---------- *)
+  Lemma run_items_strip_id s l :
+    (forall s, cmt s = s) -> run_items s (strip_cmts_items l) = run_items s l.
+  Proof.
+    intros Hc. revert s. induction l as [|[a|t] l IH]; intros s; [reflexivity| |].
+    - cbn [strip_cmts_items filter is_stmt Doc.run_items Doc.step].
+      destruct (exec s a); [apply IH|reflexivity].
+    - cbn [strip_cmts_items filter is_stmt Doc.run_items Doc.step]. rewrite Hc. apply IH.
+  Qed.
+
+  (* where a comment leaves the store alone, comments are inert *)
+  Theorem comments_inert_if (d : list elemT) :
+    (forall s, cmt s = s) -> run_doc (strip_cmts d) = run_doc d.
+  Proof.
+    intros Hc. unfold Doc.run_doc. generalize (start init) as ds.
+    induction d as [|e d IH]; intros ds; [reflexivity|].
+    cbn [strip_cmts map]. rewrite !run_from_cons. fold (strip_cmts d). rewrite IH. f_equal.
+    unfold Doc.run_elem. destruct (d_halted ds); [reflexivity|].
+    destruct e as [p|p|l|[|n|] l]; cbn [strip_cmts_elem]; rewrite ?run_items_strip_id by exact Hc; reflexivity.
+  Qed.
+
+  (* in general: comments are inert up to whatever [cmt] may change, provided no statement depends on it *)
+  Section Upto.
+    Variable R : S -> S -> Prop.
+    Hypothesis R_refl : forall s, R s s.
+    Hypothesis R_cmt : forall s t, R s t -> R (cmt s) t.
+    Hypothesis R_exec : forall s t a, R s t ->
+      match exec s a, exec t a with
+      | Ok s', Ok t' => R s' t'
+      | Err s', Err t' => R s' t'
+      | _, _ => False
+      end.
+
+    Lemma run_items_strip_upto l : forall s t, R s t ->
+      R (fst (run_items s l)) (fst (run_items t (strip_cmts_items l))) /\
+      snd (run_items s l) = snd (run_items t (strip_cmts_items l)).
+    Proof.
+      induction l as [|[a|c] l IH]; intros s t H.
+      - cbn. auto.
+      - cbn [strip_cmts_items filter is_stmt Doc.run_items Doc.step].
+        pose proof (R_exec s t a H) as He.
+        destruct (exec s a) as [s'|s'], (exec t a) as [t'|t']; try contradiction.
+        + apply IH, He.
+        + cbn. auto.
+      - cbn [strip_cmts_items filter is_stmt Doc.run_items Doc.step]. apply IH, R_cmt, H.
+    Qed.
+
+    Definition subs_rel (a b : list (string * S)) : Prop :=
+      Forall2 (fun x y => fst x = fst y /\ R (snd x) (snd y)) a b.
+    Definition ds_rel (a b : dstate S) : Prop :=
+      R (d_main a) (d_main b) /\ subs_rel (d_subs a) (d_subs b) /\ d_halted a = d_halted b.
+
+    Lemma sub_or_init_rel n a b : subs_rel a b -> R (sub_or_init n a) (sub_or_init n b).
+    Proof.
+      unfold Doc.sub_or_init. induction 1 as [|[m v] [m' w] a b [Hn Hr] _ IH]; cbn; [apply R_refl|].
+      cbn in Hn, Hr. subst m'. destruct (String.eqb n m); [exact Hr|exact IH].
+    Qed.
+
+    Lemma upsert_rel n v w a b : R v w -> subs_rel a b -> subs_rel (upsert n v a) (upsert n w b).
+    Proof.
+      intros Hv. induction 1 as [|[m x] [m' y] a b [Hn Hr] Hab IH]; cbn.
+      - constructor; [cbn; auto|constructor].
+      - cbn in Hn, Hr. subst m'. destruct (String.eqb n m).
+        + constructor; [cbn; auto|exact Hab].
+        + constructor; [cbn; auto|exact IH].
+    Qed.
+
+    Lemma run_elem_rel a b (e : elemT) : ds_rel a b -> ds_rel (run_elem a e) (run_elem b (strip_cmts_elem e)).
+    Proof.
+      intros (Hm & Hs & Hh). unfold Doc.run_elem. rewrite <- Hh.
+      destruct (d_halted a) eqn:Ha; [repeat split; try assumption; congruence|].
+      assert (Hmain : forall l,
+        ds_rel (let '(s', ok) := run_items (d_main a) l in DS s' (d_subs a) (negb ok))
+               (let '(s', ok) := run_items (d_main b) (strip_cmts_items l) in DS s' (d_subs b) (negb ok))).
+      { intros l. destruct (run_items_strip_upto l _ _ Hm) as [H1 H2].
+        destruct (run_items (d_main a) l) as [s1 o1], (run_items (d_main b) (strip_cmts_items l)) as [s2 o2].
+        cbn in H1, H2. subst o2. repeat split; assumption. }
+      destruct e as [p|p|l|[|n|] l]; cbn [strip_cmts_elem]; try (repeat split; try assumption; congruence).
+      - apply Hmain.
+      - apply Hmain.
+      - destruct (run_items_strip_upto l _ _ (sub_or_init_rel n _ _ Hs)) as [H1 _].
+        destruct (run_items (sub_or_init n (d_subs a)) l) as [s1 o1],
+                 (run_items (sub_or_init n (d_subs b)) (strip_cmts_items l)) as [s2 o2].
+        cbn in H1. unfold ds_rel. cbn.
+        split; [exact Hm|]. split; [apply upsert_rel; assumption|reflexivity].
+    Qed.
+
+    Theorem comments_inert_upto (d : list elemT) : ds_rel (run_doc d) (run_doc (strip_cmts d)).
+    Proof.
+      unfold Doc.run_doc.
+      assert (H0 : ds_rel (start init) (start init)) by (repeat split; [apply R_refl|constructor]).
+      revert H0. generalize (start init) at 1 3 as a. generalize (start init) as b.
+      induction d as [|e d IH]; intros b a H; [exact H|].
+      cbn [strip_cmts map]. rewrite !run_from_cons. apply IH, run_elem_rel, H.
+    Qed.
+  End Upto.
 End Generic.
+
+(* ---------- the concrete instance: comments are NOT inert in the implementation's semantics ---------- *)
+Definition refute_doc : list (elem tstmt string) := [Code [Stmt (TDef "x" (TLit 5)); Cmt "-- note"]].
+
+Theorem comment_resets_ans :
+  t_ans (d_main (trun refute_doc)) = None /\
+  t_ans (d_main (trun (strip_cmts refute_doc))) = Some 5%Z /\
+  t_vars (d_main (trun refute_doc)) = t_vars (d_main (trun (strip_cmts refute_doc))).
+Proof. repeat split. Qed.
+
+Theorem comments_not_inert : exists d : list (elem tstmt string), trun d <> trun (strip_cmts d).
+Proof. exists refute_doc. intros H. apply (f_equal (fun x => t_ans (d_main x))) in H. discriminate H. Qed.
+
+(* ... but all variables other than `ans` agree, for every document, in the concrete semantics *)
+Definition same_vars (s t : tstore) : Prop := t_vars s = t_vars t.
+
+Theorem toy_comments_inert_upto_ans (d : list (elem tstmt string)) :
+  ds_rel same_vars (trun d) (trun (strip_cmts d)).
+Proof.
+  apply comments_inert_upto.
+  - reflexivity.
+  - intros s t H. exact H.
+  - intros s t [x e] H. unfold same_vars in *. cbn. rewrite H.
+    destruct (teval (t_vars t) e); [|exact H]. destruct (lookup x (t_vars t)); [exact H|]. cbn. rewrite H. reflexivity.
+Qed.
+
+(* ---------- judge ---------- *)
+Fixpoint ns_spec (d : list (elem jstmt string)) (D : dobs) (ns : list string) (rest : list dobs) : Prop :=
+  match ns, rest with
+  | [], [] => True
+  | n :: ns', Na :: Nb :: rest' =>
+      o_src Na = ns_only n d /\ o_src Nb = ns_flat n d /\
+      (exists t, lookup n (o_subs D) = Some t /\ lookup n (o_subs Na) = Some t /\ o_main Nb = t) /\
+      ns_spec d D ns' rest'
+  | _, _ => False
+  end.
+
+(* what an `ok` verdict asserts about the implementation's observations *)
+Definition C10_spec (jd : list jelem) (os : list dobs) : Prop :=
+  exists D M rest, os = D :: M :: rest /\
+    o_src D = render_doc jd /\ o_src M = main_only (doc_of jd) /\
+    is_perr (o_res D) = false /\ o_res D = o_res M /\ o_main D = o_main M /\
+    List.length (o_subs D) = List.length (ns_names (doc_of jd)) /\
+    ns_spec (doc_of jd) D (ns_names (doc_of jd)) rest.
+
+Lemma tc_and_eq a b : tc_and a b = TEq -> a = TEq /\ b = TEq.
+Proof. destruct a, b; cbn; intros H; try discriminate; auto. Qed.
+
+Lemma table_check_eq c got want : table_check c got want = TEq -> got = want.
+Proof.
+  unfold table_check. destruct (sxs_eqb got want) eqn:E; [intros _; apply sxs_eqb_eq, E|].
+  destruct (c && sxs_eqb got (set_ans_empty want)); discriminate.
+Qed.
+
+Lemma table_check_kf c got want :
+  table_check c got want = TKf -> c = true /\ got = set_ans_empty want /\ got <> want.
+Proof.
+  unfold table_check. destruct (sxs_eqb got want) eqn:E; [discriminate|].
+  destruct c; cbn [andb]; [|discriminate].
+  destruct (sxs_eqb got (set_ans_empty want)) eqn:E2; [|discriminate].
+  intros _. split; [reflexivity|]. split; [apply sxs_eqb_eq, E2|].
+  intros ->. assert (X : sxs_eqb want want = true).
+  { clear. induction want as [|x w IH]; [reflexivity|]. cbn. rewrite IH, Bool.andb_true_r.
+    clear. revert x. fix F 1. intros [z|s|s|l]; cbn.
+    - apply Z.eqb_refl. - apply String.eqb_refl. - apply String.eqb_refl.
+    - induction l as [|y l IHl]; [reflexivity|]. rewrite F. exact IHl. }
+  congruence.
+Qed.
+
+Lemma ns_checks_eq d D ns rest : ns_checks d D ns rest = Some TEq -> ns_spec d D ns rest.
+Proof.
+  revert rest. induction ns as [|n ns IH]; intros rest H.
+  - destruct rest; [exact I|discriminate].
+  - destruct rest as [|Na [|Nb rest]]; try discriminate. cbn [ns_checks] in H.
+    destruct (ns_check d D n Na Nb) as [a|] eqn:Ea; [|discriminate].
+    destruct (ns_checks d D ns rest) as [b|] eqn:Eb; [|discriminate].
+    injection H as H. apply tc_and_eq in H as [-> ->].
+    cbn [ns_spec]. unfold ns_check in Ea.
+    destruct (String.eqb (o_src Na) (ns_only n d) && String.eqb (o_src Nb) (ns_flat n d)) eqn:Es; [|discriminate].
+    apply andb_prop in Es as [Es1 Es2]. apply String.eqb_eq in Es1, Es2.
+    destruct (lookup n (o_subs D)) as [t|] eqn:El; [|discriminate].
+    destruct (lookup n (o_subs Na)) as [ta|] eqn:Ela; [|discriminate].
+    injection Ea as Ea. apply tc_and_eq in Ea as [E1 E2].
+    apply table_check_eq in E1, E2. subst ta.
+    repeat split; try assumption.
+    + exists t. auto.
+    + apply IH, Eb.
+Qed.
+
+Theorem judge_doc_sound stream jd os tag :
+  judge_doc stream jd os = Some (v_ok tag) -> C10_spec jd os.
+Proof.
+  unfold judge_doc. destruct os as [|D [|M rest]]; try discriminate.
+  destruct (String.eqb (o_src D) (render_doc jd) && String.eqb (o_src M) (main_only (doc_of jd))) eqn:Es;
+    cbn [negb]; [|discriminate].
+  apply andb_prop in Es as [Es1 Es2]. apply String.eqb_eq in Es1, Es2.
+  destruct (is_perr (o_res M)); [discriminate|].
+  destruct (is_perr (o_res D)) eqn:Ep.
+  { destruct (kf_list_dash (doc_of jd)); [discriminate|]. destruct (String.eqb stream "plain"); discriminate. }
+  destruct (ns_checks (doc_of jd) D (ns_names (doc_of jd)) rest) as [nsr|] eqn:En; [|discriminate].
+  destruct (sx_eqb (o_res D) (o_res M)) eqn:Er; cbn [negb]; [|discriminate].
+  destruct (Nat.eqb (List.length (o_subs D)) (List.length (ns_names (doc_of jd)))) eqn:El; cbn [negb]; [|discriminate].
+  destruct (table_check (last_is_cmt (d_main (jrun (doc_of jd)))) (o_main D) (o_main M)) eqn:Et;
+    destruct nsr; try discriminate.
+  intros _. exists D, M, rest. repeat split; try assumption.
+  - apply sx_eqb_eq, Er.
+  - eapply table_check_eq, Et.
+  - apply Nat.eqb_eq, El.
+  - apply ns_checks_eq, En.
+Qed.
+
+(* a known-finding verdict is given only inside the finding's class and only for the predicted wrong behaviour *)
+Theorem judge_kf_list_dash stream jd os :
+  judge_doc stream jd os = Some (v_kf "list-then-dash-line") ->
+  kf_list_dash (doc_of jd) = true /\ exists D M rest, os = D :: M :: rest /\ is_perr (o_res D) = true.
+Proof.
+  unfold judge_doc. destruct os as [|D [|M rest]]; try discriminate.
+  destruct (negb _); [discriminate|].
+  destruct (is_perr (o_res M)); [discriminate|].
+  destruct (is_perr (o_res D)) eqn:Ep.
+  - destruct (kf_list_dash (doc_of jd)) eqn:Ek.
+    + intros _. split; [reflexivity|]. exists D, M, rest. auto.
+    + destruct (String.eqb stream "plain"); discriminate.
+  - destruct (ns_checks _ _ _ _) as [nsr|]; [|discriminate].
+    destruct (negb _); [discriminate|]. destruct (negb _); [discriminate|].
+    destruct (table_check _ _ _); destruct nsr; discriminate.
+Qed.
